@@ -17,8 +17,8 @@ macro "chain " t1:term ", " t2:term ", " ho:ident ", " hq:ident : tactic => `(ta
     obtain ⟨x2, s2⟩ := r2
     obtain ⟨x1, s1⟩ := r1
     rcases $ho:ident with hbad | ⟨heq, hrel'⟩
-    · rcases hbad with hb | hb <;>
-        (simp only at hb; subst hb; first | exact ⟨Or.inl (Or.inl rfl), $hq⟩ | exact ⟨Or.inl (Or.inr rfl), $hq⟩)
+    · rcases hbad with hb | hb | hb <;>
+        (simp only at hb; subst hb; first | exact ⟨Or.inl bad_fuel, $hq⟩ | exact ⟨Or.inl bad_unbound, $hq⟩ | exact ⟨Or.inl bad_panic, $hq⟩)
     simp only at heq
     subst heq
     rcases x1 with er | v
@@ -83,7 +83,7 @@ theorem rstep_var (hs : SetupOk S) (nm : Bytes) (bd : Option Nat) (sp : Span) (a
   rw [e]
   cases bd.bind (fun id => lookupEnv P.dscope id b.env) with
   | some v => exact ⟨Or.inr ⟨rfl, hr⟩, hi⟩
-  | none => exact ⟨Or.inl (Or.inr rfl), hi⟩
+  | none => exact ⟨Or.inl bad_unbound, hi⟩
 
 theorem rstep_logic (ih : Sim P S n) (l r : Expr) (a b : St V) (hl : eOk S.BR S.D2 l = true)
     (hrr : eOk S.BR S.D2 r = true) (hr : Rel S a b) (hi : Inv2 P S b) (stop : V → Bool) (short : V) :
@@ -131,7 +131,7 @@ theorem rstep_generic (hs : SetupOk S) (ih : Sim P S n) (e : Expr) (a b : St V)
     readAll_rel hs.d12 _ hrel'.2.2 _ (eOk_interpIds e he)
   rw [e1]
   cases readAll P.dscope s2.env (interpIds e) with
-  | none => exact ⟨Or.inl (Or.inr rfl), hq⟩
+  | none => exact ⟨Or.inl bad_unbound, hq⟩
   | some rs => exact ⟨Or.inr ⟨rfl, hrel'⟩, hq⟩
 
 theorem inv2_pop {st : St V} (h : Inv2 P S st) :
@@ -235,9 +235,10 @@ theorem rstep_userCall (hs : SetupOk S) (ih : Sim P S n) (args : List Expr) (f :
       obtain ⟨x1, t1⟩ := r1
       have hpop := inv2_pop hq3
       rcases ho3 with hbad | ⟨heq, hrel3⟩
-      · rcases hbad with hb | hb <;> (simp only at hb; subst hb)
-        · exact ⟨Or.inl (Or.inl rfl), hpop⟩
-        · exact ⟨Or.inl (Or.inr rfl), hpop⟩
+      · rcases hbad with hb | hb | hb <;> (simp only at hb; subst hb)
+        · exact ⟨Or.inl bad_fuel, hpop⟩
+        · exact ⟨Or.inl bad_unbound, hpop⟩
+        · exact ⟨Or.inl bad_panic, hpop⟩
       · simp only at heq
         subst heq
         have hrp := rel_pop hrel3
@@ -346,7 +347,7 @@ theorem rstep_expr (hs : SetupOk S) (ih : Sim P S n) : ∀ (e : Expr) (a b : St 
           have el : lookupEnv P.dscope root s1.env = lookupEnv P.dscope root s2.env := lookup_rel hs.d12 hlo.1 _ _ _ hrel'.2.2
           rw [el]
           cases lookupEnv P.dscope root s2.env with
-          | none => exact ⟨Or.inl (Or.inr rfl), hq2⟩
+          | none => exact ⟨Or.inl bad_unbound, hq2⟩
           | some old =>
             simp only []
             cases P.mutMember field old v vargs with
@@ -403,13 +404,13 @@ theorem rstep_stmt (hs : SetupOk S) (ih : Sim P S n) : ∀ (s : Stmt) (a b : St 
       obtain ⟨ho, hq⟩ := ih.expr e a b he hr hi
       chain (evalExpr P S.cfg n e a), (evalExpr P plain n e b), ho, hq
       cases bd with
-      | none => exact ⟨Or.inl (Or.inr rfl), hq⟩
+      | none => exact ⟨Or.inl bad_unbound, hq⟩
       | some l =>
         simp only [Option.bind_some]
         have hd : S.D1 l = false := hok.2.2 hsk l rfl
         have ha := assign_rel (v1 := v) (v2 := v) hd (Or.inr rfl) P.dscope _ _ hrel'.2.2
         cases e1 : assignEnv P.dscope l v s1.env <;> cases e2 : assignEnv P.dscope l v s2.env <;> simp only [e1, e2, ORel] at ha
-        · exact ⟨Or.inl (Or.inr rfl), hq⟩
+        · exact ⟨Or.inl bad_unbound, hq⟩
         · exact ⟨Or.inr ⟨rfl, ⟨hrel'.1, hrel'.2.1, ha⟩⟩, hq⟩
   | .assignIndex t e (some j) _, a, b, f, i, _, _, hc, hok, hf, hr, hi => by
       have hiT : (j, true) ∈ S.T := consStmt_inTbl hc j rfl
@@ -433,7 +434,7 @@ theorem rstep_stmt (hs : SetupOk S) (ih : Sim P S n) : ∀ (s : Stmt) (a b : St 
         have el : lookupEnv P.dscope root s1.env = lookupEnv P.dscope root s2.env := lookup_rel hs.d12 hlo.1 _ _ _ hrel'.2.2
         rw [el]
         cases lookupEnv P.dscope root s2.env with
-        | none => exact ⟨Or.inl (Or.inr rfl), hq2⟩
+        | none => exact ⟨Or.inl bad_unbound, hq2⟩
         | some old =>
           simp only []
           cases P.setPath old v val with
@@ -544,8 +545,8 @@ theorem quiet_assign {e : Expr} (hq : Quiet P e) (m : Nat) (st : St V) (vr : Byt
       subst hv
       exact Or.inr ⟨v, rfl⟩
     · rcases hb with hb | hb <;> (simp only at hb; subst hb)
-      · exact Or.inl ⟨Or.inl rfl, rfl⟩
-      · exact Or.inl ⟨Or.inr rfl, rfl⟩
+      · exact Or.inl ⟨bad_fuel, rfl⟩
+      · exact Or.inl ⟨bad_unbound, rfl⟩
 
 theorem quiet_assignExisting {e : Expr} (hq : Quiet P e) (m : Nat) (st : St V) (vr : Bytes) (vs : Span) (l : Nat)
     (sid : Option Nat) (sp : Span) :
@@ -567,11 +568,11 @@ theorem quiet_assignExisting {e : Expr} (hq : Quiet P e) (m : Nat) (st : St V) (
       subst hv
       simp only [Option.bind_some]
       cases ha : assignEnv P.dscope l v s'.env with
-      | none => exact Or.inl ⟨Or.inr rfl, rfl⟩
+      | none => exact Or.inl ⟨bad_unbound, rfl⟩
       | some env' => exact Or.inr ⟨v, env', ha, rfl⟩
     · rcases hb with hb | hb <;> (simp only at hb; subst hb)
-      · exact Or.inl ⟨Or.inl rfl, rfl⟩
-      · exact Or.inl ⟨Or.inr rfl, rfl⟩
+      · exact Or.inl ⟨bad_fuel, rfl⟩
+      · exact Or.inl ⟨bad_unbound, rfl⟩
 
 /-- The only statements the pruned run may skip at a reachable point are quiet stores. -/
 theorem skipped_is_store (hs : SetupOk S) {f i : Nat} : ∀ {s : Stmt}, s.sid = some i → (i, true) ∈ S.T →
@@ -644,9 +645,10 @@ theorem rstep_stmts (hs : SetupOk S) (ih : Sim P S n) : ∀ (ss : List Stmt) (a 
           obtain ⟨x2, s2⟩ := r2
           obtain ⟨x1, s1⟩ := r1
           rcases ho with hbad | ⟨heq, hrel'⟩
-          · rcases hbad with hb | hb <;> (simp only at hb; subst hb)
-            · exact ⟨Or.inl (Or.inl rfl), hq⟩
-            · exact ⟨Or.inl (Or.inr rfl), hq⟩
+          · rcases hbad with hb | hb | hb <;> (simp only at hb; subst hb)
+            · exact ⟨Or.inl bad_fuel, hq⟩
+            · exact ⟨Or.inl bad_unbound, hq⟩
+            · exact ⟨Or.inl bad_panic, hq⟩
           · simp only at heq
             subst heq
             rcases x1 with er | fl
@@ -669,9 +671,10 @@ theorem rstep_stmts (hs : SetupOk S) (ih : Sim P S n) : ∀ (ss : List Stmt) (a 
               obtain ⟨x2, s2⟩ := r2
               simp only at hst
               subst hst
-              rcases hb with hb | hb <;> (simp only at hb; subst hb)
-              · exact ⟨Or.inl (Or.inl rfl), hi'⟩
-              · exact ⟨Or.inl (Or.inr rfl), hi'⟩
+              rcases hb with hb | hb | hb <;> (simp only at hb; subst hb)
+              · exact ⟨Or.inl bad_fuel, hi'⟩
+              · exact ⟨Or.inl bad_unbound, hi'⟩
+              · exact ⟨Or.inl bad_panic, hi'⟩
             · rw [hv]
               simp only []
               have hr2 : Rel S a { b with trace := i :: b.trace, env := defineEnv l val b.env } :=
@@ -686,9 +689,10 @@ theorem rstep_stmts (hs : SetupOk S) (ih : Sim P S n) : ∀ (ss : List Stmt) (a 
               obtain ⟨x2, s2⟩ := r2
               simp only at hst
               subst hst
-              rcases hb with hb | hb <;> (simp only at hb; subst hb)
-              · exact ⟨Or.inl (Or.inl rfl), hi'⟩
-              · exact ⟨Or.inl (Or.inr rfl), hi'⟩
+              rcases hb with hb | hb | hb <;> (simp only at hb; subst hb)
+              · exact ⟨Or.inl bad_fuel, hi'⟩
+              · exact ⟨Or.inl bad_unbound, hi'⟩
+              · exact ⟨Or.inl bad_panic, hi'⟩
             · rw [hv]
               simp only []
               have hr2 : Rel S a { b with trace := i :: b.trace, env := env' } :=
@@ -766,9 +770,10 @@ theorem rstep_loop (ih : Sim P S n) (c : Expr) (bd : List Stmt) (a b : St V) (f 
       obtain ⟨x2, t2⟩ := r2
       obtain ⟨x1, t1⟩ := r1
       rcases ho2 with hbad | ⟨heq, hrel2⟩
-      · rcases hbad with hb | hb <;> (simp only at hb; subst hb)
-        · exact ⟨Or.inl (Or.inl rfl), hq2⟩
-        · exact ⟨Or.inl (Or.inr rfl), hq2⟩
+      · rcases hbad with hb | hb | hb <;> (simp only at hb; subst hb)
+        · exact ⟨Or.inl bad_fuel, hq2⟩
+        · exact ⟨Or.inl bad_unbound, hq2⟩
+        · exact ⟨Or.inl bad_panic, hq2⟩
       · simp only at heq
         subst heq
         rcases x1 with er | fl
